@@ -287,7 +287,7 @@ PLAN["C19"] = {
     "level": "exploration",
     "rule": "small scope, complete: every automaton of TA(3,{a:0,f:1,g:2},<=3) under ALL 6 state bijections x 2 embeddings (dense, 7q+3) x ALL 6 symbol-id permutations x ALL rule insertion "
             "orders (<=6): emptiness verdict, |states|/|rules| of Reduce / RemoveUselessStates / RemoveUnreachableStates, downward and (trimmed) upward simulation mapped back through the "
-            "renaming must equal those of the base variant; the same for every TRIMMED automaton of TA(3,{a:0,h:3},<=3) and TA(3,{a:0,g:2},<=4) (thorough: TA(3,{a:0,f:1,g:2},<=4), TA(4,{a:0,g:2},<=4)) - contexts with two siblings / several binary rules sharing a context, which the upward simulation needs; every pair of TA(2,{a:0,b:0,g:2}) with <=3 rules in total under all bijections of both operands x embeddings x symbol permutations x "
+            "renaming must equal those of the base variant; the same for every TRIMMED automaton of TA(3,{a:0,h:3},<=3) and TA(3,{a:0,g:2},<=4) (thorough: TA(3,{a:0,f:1,g:2},<=4), TA(4,{a:0,g:2},<=4)) - contexts with two siblings / several binary rules sharing a context, which the upward simulation needs; DUPLICATED-STATE TWINS: every trimmed automaton of TA(3,{a:0,g:2},<=3), TA(3,{a:0,f:1,g:2},<=3), TA(2,{a:0,b:0,f:1,g:2},<=4) with every state split into two copies (rules with equal left-hand sides and different parents, n+1 states), with no reference model: invariance under all (n+1)! bijections x 2 constructions, the twins simulate each other downward and upward, all 8 inclusion algorithms say A = twin form, Reduce merges the twins; trimmed pairs TA(2,{a:0,b:0,g:2}) A<=2 x B<=4 under all renamings with ALL 8 variants; every pair of TA(2,{a:0,b:0,g:2}) with <=3 rules in total under all bijections of both operands x embeddings x symbol permutations x "
             "insertion orders x 8 inclusion variants vs the reference verdict. Corpus, complete over finite sets: every file of automata/small_timbuk (all 95^2 ordered pairs), "
             "tests/aut_timbuk_smaller (20 automata of 159-1402 rules; thorough: all 400 ordered pairs against the shipped answer table), automata/moderate_artmc_timbuk (27 automata): all 8 "
             "variants agree, A<=A, A<=AuB, AnB<=A (Intersection and IntersectionBU, which must be equivalent), A<=B implies AuB<=B and A<=AnB, transitivity on every triple whose premises "
@@ -297,9 +297,9 @@ PLAN["C19"] = {
                                         "shifts, 7q+3, reversed rule order) on the corpus; no randomness", "corpus checks are metamorphic (the library's own inclusion is the judge); small-scope checks use the reference model"],
     "claim": "Complete over all renamings/orders for the small domains; complete over the finite shipped corpus for the listed laws and the listed renaming family.",
     "technique": "bounded exhaustive enumeration of automata x all state bijections x symbol permutations x insertion orders; exhaustive pair/triple enumeration over the finite shipped corpus (metamorphic laws)",
-    "quick": [("rel", "c19.small.single.n3k3"), ("rel", "c19.small.single.trim.n3ahk3"), ("rel", "c19.small.single.trim.n3agk4"), ("rel", "c19.small.pairs.n2t3"), ("rel", "c19.small.pairs.trim.n2s3.a2b3"), ("rel", "c19.small.pairs.trim.n2s2.a3b3"), ("rel", "c19.corpus.small.single"), ("rel", "c19.corpus.small.pairs"), ("rel", "c19.corpus.smaller.single"),
+    "quick": [("rel", "c19.small.single.n3k3"), ("rel", "c19.small.single.trim.n3ahk3"), ("rel", "c19.small.single.trim.n3agk4"), ("rel", "c19.small.dup.n3agk3"), ("rel", "c19.small.dup.n3s3pk3"), ("rel", "c19.small.dup.n2s3k4"), ("rel", "c19.small.pairs.trim.n2s2.a2b4.all8"), ("rel", "c19.small.pairs.n2t3"), ("rel", "c19.small.pairs.trim.n2s3.a2b3"), ("rel", "c19.small.pairs.trim.n2s2.a3b3"), ("rel", "c19.corpus.small.single"), ("rel", "c19.corpus.small.pairs"), ("rel", "c19.corpus.smaller.single"),
               ("rel", "c19.corpus.smaller.triples"), ("rel", "c19.corpus.moderate.single")],
-    "thorough": [("rel", "c19.small.single.n3k3"), ("rel", "c19.small.single.trim.n3ahk3"), ("rel", "c19.small.single.trim.n3agk4"), ("rel", "c19.small.single.trim.n3s3pk4"), ("rel", "c19.small.single.trim.n4agk4"), ("rel", "c19.small.pairs.n2k2"), ("rel", "c19.small.pairs.trim.n2s3.a3b3"), ("rel", "c19.small.pairs.trim.n2s2.a3b5"), ("rel", "c19.small.pairs.trim.n3abf.a4b2"), ("rel", "c19.corpus.small.single"), ("rel", "c19.corpus.small.pairs"), ("rel", "c19.corpus.smaller.single"),
+    "thorough": [("rel", "c19.small.single.n3k3"), ("rel", "c19.small.single.trim.n3ahk3"), ("rel", "c19.small.single.trim.n3agk4"), ("rel", "c19.small.single.trim.n3s3pk4"), ("rel", "c19.small.single.trim.n4agk4"), ("rel", "c19.small.dup.n3agk3"), ("rel", "c19.small.dup.n3s3pk3"), ("rel", "c19.small.dup.n2s3k4"), ("rel", "c19.small.pairs.trim.n2s2.a2b4.all8"), ("rel", "c19.small.dup.n3agk4"), ("rel", "c19.small.pairs.trim.n2s2.a3b3.all8"), ("rel", "c19.small.pairs.n2k2"), ("rel", "c19.small.pairs.trim.n2s3.a3b3"), ("rel", "c19.small.pairs.trim.n2s2.a3b5"), ("rel", "c19.small.pairs.trim.n3abf.a4b2"), ("rel", "c19.corpus.small.single"), ("rel", "c19.corpus.small.pairs"), ("rel", "c19.corpus.smaller.single"),
                  ("rel", "c19.corpus.smaller.triples"), ("rel", "c19.corpus.moderate.single"), ("rel", "c19.corpus.smaller.pairs")],
     "require": {"all": ["variants", "calls", "expect_not_included", "equivalence_checks", "variant_calls", "law_checks", "transitivity_triples_with_both_premises"]},
 }
